@@ -66,6 +66,9 @@ def handle : Handler
         if !acceptLocals all frame then some "bad-regions"
         else if (parseTextSize text.toList).map (fun p => (p.1 : Int)) != some frame then some "bad-text-frame"
         else if regs.any (fun p => parseStackAddr p.2.toList != some p.1.off) then some "bad-operand"
+        -- the property against the frame the assembler really allocates for that TEXT line (int32 truncation)
+        else if !acceptLocalsText all text.toList then
+          some s!"bad-frame-wraps-int32 declared={frame} assembler-allocates={(asmTextFrame text.toList).getD 0}"
         else some "ok"
     | _ => none
   | "accept-cpu" :: bp :: rest => do
@@ -78,9 +81,12 @@ def handle : Handler
         else check (i + 1) more
     some (check 0 locals)
   | "accept-cpu-build" :: _ => some "bad-generated-assembly-does-not-build"
+  /- `accept-bpwrite <requested> <compiled>`: the generator emitted an instruction whose destination is a view of
+     BP; the compiled function must still write BP (the model's clobber input is the generator's request) -/
+  | ["accept-bpwrite", req, got] => some (if req == "1" && got != "1" then "bad-requested-bp-write-missing" else "ok")
   | _ => none
 
 def handlers : List (String × Handler) :=
-  ["locals", "accept-locals", "accept-cpu", "accept-cpu-build"].map (·, handle)
+  ["locals", "accept-locals", "accept-cpu", "accept-cpu-build", "accept-bpwrite"].map (·, handle)
 
 end Avo.Drv.C16
